@@ -538,7 +538,8 @@ open KV.Spec.FieldMaps KV.Gen.Mappings
 copies it from (tables regenerated from transport.go; tolerant to locals, see Spec/FieldMaps.lean) -/
 theorem layout_sources :
     allAgree makeLayout_Broker layoutBroker = true ∧ allAgree makeLayout_Cluster layoutCluster = true ∧
-    allAgree makeLayout_Topic layoutTopic = true ∧ allAgree makePartitions_Partition layoutPartition = true := by decide
+    allAgree makeLayout_Topic layoutTopic = true ∧ allAgree makePartitions_Partition layoutPartition = true ∧
+    allAgree filterMetadataResponse_ResponseTopic filterPlaceholder = true := by decide
 
 end fieldmaps
 
